@@ -437,7 +437,9 @@ func (m *Muxer) Close() {
 	m.closed = true
 	m.mutex.Unlock()
 
+	verifYield("close:beforeBroadcast")
 	m.cond.Broadcast()
+	verifYield("close:afterBroadcast")
 
 	for _, stream := range m.streams {
 		stream.close()
@@ -529,6 +531,7 @@ func (m *Muxer) rotateParts(nextDTS time.Duration) error {
 		return err
 	}
 
+	verifYield("rot:beforeBroadcast")
 	m.cond.Broadcast()
 
 	return nil
@@ -566,6 +569,7 @@ func (m *Muxer) rotateSegments(
 		return err
 	}
 
+	verifYield("rot:beforeBroadcast")
 	m.cond.Broadcast()
 
 	return nil
